@@ -16,6 +16,7 @@ import NmVerif.Index.MatmulBroadcast
   Core Lean only.
 -/
 namespace NmVerif
+open NmVerif.MB
 
 /-- `at(l, -k) = v` for `1 ≤ k ≤ len` -/
 def setNeg (l : List Nat) (k v : Nat) : List Nat := l.set (l.length - k) v
